@@ -6,8 +6,9 @@ import shutil
 import sys
 
 pid, v, caught, notes = sys.argv[1:5]
-src = '/tmp/seeded_out/%s/%s' % (pid, v)
-dst = '/verif/seeded/%s-%s' % (pid, v)
+import os as _os
+src = '%s/%s/%s' % (_os.environ.get('SEEDSRC', '/tmp/seeded_out'), pid, v)
+dst = '/verif/seeded/%s-%s' % (pid, _os.environ.get('SEEDNAME', v))
 os.makedirs(dst, exist_ok=True)
 shutil.copy(src + '/patch.diff', dst + '/patch.diff')
 shutil.copy(src + '/demo.py', dst + '/demo.py')
